@@ -18,8 +18,9 @@ EXTENDS Lease, Json, IOUtils
 
 TraceLog == ndJsonDeserialize(IOEnv.TRACE_FILE)
 
-VARIABLE l
-tvars == <<vars, l>>
+VARIABLES l,      \* next line of the log
+          tent    \* answer half: every entry ever stored, by id: [key, exp]
+tvars == <<vars, l, tent>>
 
 Line == TraceLog[l]
 IsEv(e) == l <= Len(TraceLog) /\ Line.ev = e /\ l' = l + 1
@@ -111,8 +112,8 @@ DModel ==       \* steps in which the implementation decides nothing the monitor
   \/ IsEv("AnswerFromLeaf") /\ AnswerFromLeaf(Arg(1), Arg(2))
   \/ IsEv("TickD") /\ TickD(Arg(1))
 
-TraceNextD == DReset \/ ((DInsert \/ DProvisional \/ DDescend \/ DServe \/ DModel) /\ InStep)
-TraceInitD == InitDeleg /\ l = 1
+TraceNextD == (DReset \/ ((DInsert \/ DProvisional \/ DDescend \/ DServe \/ DModel) /\ InStep)) /\ UNCHANGED tent
+TraceInitD == InitDeleg /\ l = 1 /\ tent = <<>>
 TraceSpecD == TraceInitD /\ [][TraceNextD]_tvars
 
 (* what the real Get returned is inside every lease granted on the path     *)
@@ -128,5 +129,135 @@ ServedFollowsParent ==
      /\ \A a \in PathSet(dans[dreply.z].via) : now < granted[a]
 
 TraceAccepted == TLCGet("stats").diameter - 1 = Len(TraceLog)
-(*ANSWER-HALF*)
+(***************************************************************************)
+(*                           answer half (C04)                             *)
+(* The monitor keeps, per entry id, the lifetime the implementation stored *)
+(* (effective TTL and cut read back through the overlay accessor) and      *)
+(* judges every observed reply against it.                                 *)
+(***************************************************************************)
+ToSet(s) == {s[i] : i \in 1..Len(s)}
+CutV(c) == IF c = -1 THEN NoCut ELSE c
+
+AReset ==
+  /\ IsEv("Reset")
+  /\ now' = 0 /\ tent' = <<>>
+  /\ ans' = [q \in Keys |-> NoneE] /\ scut' = NoneC /\ proof' = [p \in {"soa", "nsec"} |-> NoneC]
+  /\ req' = [r \in Reqs |-> IdleReq] /\ pf' = [q \in Keys |-> 0] /\ nextId' = 1
+  /\ reply' = NoReply /\ lastShown' = [i \in {} |-> NoCut]
+  /\ UNCHANGED dvars
+
+(* entries the step stored, as observed: [key, id, raw, aux, ttl, cut] *)
+StoredNow == IF "stored" \in DOMAIN Line THEN ToSet(Line.stored) ELSE {}
+ObsEntry(s) == [id |-> s.id, stored |-> now, ttl |-> s.ttl, cutUntil |-> CutV(s.cut), ver |-> 0,
+                kind |-> KindOf(s.key)]
+ApplyStores ==
+  /\ ans' = [q \in Keys |-> IF \E s \in StoredNow : s.key = q
+                              THEN ObsEntry(CHOOSE s \in StoredNow : s.key = q) ELSE ans[q]]
+  /\ tent' = [i \in DOMAIN tent \cup {s.id : s \in StoredNow} |->
+                IF \E s \in StoredNow : s.id = i
+                  THEN LET s == CHOOSE x \in StoredNow : x.id = i
+                       IN [key |-> s.key, exp |-> Expiry(ObsEntry(s))]
+                  ELSE tent[i]]
+
+(* a completed client query / Store lookup / synthesised denial *)
+ADone ==
+  /\ l <= Len(TraceLog) /\ l' = l + 1
+  /\ "done" \in DOMAIN Line /\ Line.now = now
+  /\ LET obs == ToSet(Line.pieces) IN
+     /\ \A p \in obs : p.id \in DOMAIN tent /\ tent[p.id].key = p.key      \* explained
+     /\ LET pcs == {[key |-> p.key, id |-> p.id, shown |-> p.shown, exp |-> tent[p.id].exp, lvl |-> p.lvl] : p \in obs}
+        IN /\ reply' = [kind |-> "reply", r |-> 0, q |-> Line.q, route |-> Line.route,
+                        answered |-> Line.answered, pieces |-> pcs,
+                        stored |-> {[key |-> s.key, id |-> s.id, exp |-> Expiry(ObsEntry(s)),
+                                     lvl |-> IF "lvl" \in DOMAIN s THEN s.lvl ELSE 1] : s \in StoredNow},
+                        leases |-> {[lvl |-> L.lvl, d |-> L.d] : L \in ToSet(Line.leases)},
+                        rootcut |-> CutV(Line.rootcut)]
+           /\ lastShown' = Shown(pcs)
+  /\ ApplyStores
+  /\ UNCHANGED <<now, scut, proof, req, pf, nextId, dvars>>
+
+(* a request parked in the downstream handler, a lease folded into it: the   *)
+(* monitor waits for the completion, which carries the whole lineage         *)
+ANoop ==
+  /\ l <= Len(TraceLog) /\ l' = l + 1
+  /\ Line.ev \in {"HitMsg", "HitWire", "Chase", "CacheWrite", "NoAnswer", "Lease"}
+  /\ "done" \notin DOMAIN Line /\ Line.now = now
+  /\ reply' = NoReply
+  /\ UNCHANGED <<now, ans, scut, proof, req, pf, nextId, lastShown, tent, dvars>>
+
+AWrite ==
+  /\ IsEv("SubQueryWrite") /\ Line.now = now
+  /\ ApplyStores
+  /\ reply' = [kind |-> "write", q |-> Arg(1), id |-> Line.id]
+  /\ UNCHANGED <<now, scut, proof, req, pf, nextId, lastShown, dvars>>
+
+ACutWrite ==
+  /\ IsEv("CutWrite") /\ Line.now = now
+  /\ IF Line.ok
+       THEN /\ scut' = [id |-> Line.id, expires |-> Line.exp]
+            /\ tent' = [i \in DOMAIN tent \cup {Line.id} |->
+                          IF i = Line.id THEN [key |-> "cut", exp |-> Line.exp] ELSE tent[i]]
+       ELSE UNCHANGED <<scut, tent>>
+  /\ reply' = [kind |-> "cutwrite", ok |-> Line.ok,
+               ttl |-> IF Line.ok THEN Line.exp - now ELSE 0,
+               rule |-> BareTTL(Arg(1), Arg(2), IF Arg(3) = NoAux THEN NoCut ELSE now + Arg(3))]
+  /\ UNCHANGED <<now, ans, proof, req, pf, nextId, lastShown, dvars>>
+
+AProofWrite ==
+  /\ IsEv("ProofWrite") /\ Line.now = now
+  /\ IF Line.ok
+       THEN /\ proof' = [p \in {"soa", "nsec"} |-> IF p = "soa" THEN [id |-> Line.id, expires |-> Line.expS]
+                                                      ELSE [id |-> Line.id + 1, expires |-> Line.expN]]
+            /\ tent' = [i \in DOMAIN tent \cup {Line.id, Line.id + 1} |->
+                          IF i = Line.id THEN [key |-> "soa", exp |-> Line.expS]
+                          ELSE IF i = Line.id + 1 THEN [key |-> "nsec", exp |-> Line.expN] ELSE tent[i]]
+       ELSE UNCHANGED <<proof, tent>>
+  /\ LET c == IF Arg(3) = NoAux THEN NoCut ELSE now + Arg(3) IN
+     reply' = [kind |-> "proofwrite", ok |-> Line.ok,
+               ttlS |-> IF Line.ok THEN Line.expS - now ELSE 0, ruleS |-> BareTTL(Arg(1), NoAux, c),
+               ttlN |-> IF Line.ok THEN Line.expN - now ELSE 0, ruleN |-> BareTTL(Arg(2), NoAux, c)]
+  /\ UNCHANGED <<now, ans, scut, req, pf, nextId, lastShown, dvars>>
+
+APrefetchStart ==
+  /\ IsEv("PrefetchStart") /\ Line.now = now
+  /\ pf' = [pf EXCEPT ![Arg(1)] = Line.id]
+  /\ reply' = [kind |-> "claim", q |-> Arg(1), id |-> Line.id]
+  /\ UNCHANGED <<now, ans, scut, proof, req, nextId, lastShown, tent, dvars>>
+
+APrefetchDone ==
+  /\ IsEv("PrefetchComplete") /\ Line.now = now
+  /\ ApplyStores
+  /\ pf' = [pf EXCEPT ![Arg(1)] = 0]
+  /\ reply' = [kind |-> "pfdone", q |-> Arg(1), id |-> Line.id, swapped |-> Line.swapped,
+               claimed |-> Line.claimed, holder |-> Line.holder]
+  /\ UNCHANGED <<now, scut, proof, req, nextId, lastShown, dvars>>
+
+APurge ==
+  /\ IsEv("Purge") /\ Line.now = now
+  /\ Purge(Arg(1))
+  /\ UNCHANGED tent
+
+ATick ==
+  /\ IsEv("TickA")
+  /\ now' = now + Arg(1) /\ Line.now = now'
+  /\ reply' = NoReply
+  /\ UNCHANGED <<ans, scut, proof, req, pf, nextId, lastShown, tent, dvars>>
+
+TraceNextA == AReset \/ ADone \/ ANoop \/ AWrite \/ ACutWrite \/ AProofWrite \/ APrefetchStart
+              \/ APrefetchDone \/ APurge \/ ATick
+TraceInitA == InitAnswer /\ l = 1 /\ tent = <<>>
+TraceSpecA == TraceInitA /\ [][TraceNextA]_tvars
+
+(* the lifetime the implementation gave what it stored obeys the TTL rule:  *)
+(* never more than floor/cap applied to the smallest TTL source (and the    *)
+(* ECS cap); subtree cuts and proof RRsets take no floor                    *)
+TTLRuleStep ==
+  /\ \A s \in {x \in (IF l <= Len(TraceLog) /\ "stored" \in DOMAIN Line THEN ToSet(Line.stored) ELSE {}) : TRUE} :
+        s.ttl <= EffTTL(s.raw, s.aux, KindOf(s.key))
+  /\ reply'.kind = "cutwrite" => reply'.ttl <= reply'.rule
+  /\ reply'.kind = "proofwrite" => (reply'.ttlS <= reply'.ruleS /\ reply'.ttlN <= reply'.ruleN)
+TTLRule == [][TTLRuleStep]_tvars
+(* in the monitor a refresh that lost the race stores nothing: the log has  *)
+(* no stored entry for it                                                   *)
+LateWriteLosesT == [][reply'.kind = "pfdone" => (reply'.swapped => reply'.holder = reply'.claimed)]_tvars
 =============================================================================
